@@ -162,6 +162,27 @@ var c06Access = []struct {
 	// field of the same name still wins
 	{"baseAlone.ID * z + baseAlone.Name * z + user.Name", func(d *c06Outer) int64 { return 30 }},
 	{"deepAlone.Title * z + doc.Title", func(d *c06Outer) int64 { return 50 }},
+	// a method with a pointer receiver that tolerates a nil receiver is called through a nil
+	// pointer exactly as Go calls it (in a variable, a field, behind an interface)
+	{"emptyList.Len()", func(d *c06Outer) int64 { return 0 }},
+	{"lists.Tail.Len() * z + lists.Len()", func(d *c06Outer) int64 { return 1 }},
+	{"lists.IfTail.Len() * z + lists.V", func(d *c06Outer) int64 { return 1 }},
+	// arrays: elements by index, through pointers, of arrays
+	{"arr2[1][0]", func(d *c06Outer) int64 { return 30 }},
+	{"parr[2]", func(d *c06Outer) int64 { return 3 }},
+}
+
+type c06List struct {
+	V      int64
+	Tail   *c06List
+	IfTail interface{}
+}
+
+func (l *c06List) Len() int64 {
+	if l == nil {
+		return 0
+	}
+	return 1 + l.Tail.Len()
 }
 
 type c06Shaper interface{ Area() int64 }
@@ -190,6 +211,13 @@ type C06Flat struct{ Title int64 }
 type c06Doc struct {
 	C06Deep
 	C06Flat
+}
+
+// c06Result has fields of interface types that hold nil: they exist and yield nil.
+type c06Result struct {
+	Err   error
+	Label interface{ String() string }
+	Extra interface{}
 }
 
 type c06Color string
@@ -251,6 +279,11 @@ func H_C06_access() {
 	vars.Set("hold", &struct{ NS c06NamedSlice }{ns})
 	rect := c06Rect{3, 4, []int64{7, 8}}
 	vars.Set("holder", c06Holder{Shape: rect, PShape: &rect, Shapes: []c06Shaper{rect}, ByName: map[string]c06Shaper{"r": rect}})
+	var emptyList *c06List
+	vars.Set("emptyList", emptyList)
+	vars.Set("lists", &c06List{V: 1, IfTail: emptyList})
+	vars.Set("arr2", [2][2]int64{{10, 20}, {30, 40}})
+	vars.Set("parr", &[3]int64{1, 2, 3})
 	vars.Set("baseAlone", C06Base{10, 20})
 	vars.Set("user", c06User{C06Base{10, 20}, 30})
 	vars.Set("deepAlone", C06Deep{C06DInner{40}})
@@ -388,7 +421,7 @@ func H_C06_slice() {
 func H_C06_failures() {
 	bad := []string{"d.hidden", "d.Nope", "d.In.Nope", "d.PIn.Leaf", "d.If.Leaf", "d.ViaPtr", "d.Nope()", `d.List["x"]`, "d.A.B", "d.SMap.k.z", "np.A", "d.IMap.k",
 		"mm.nobody.leaf", "mm.nobody.leaf.more", "d.Nested.zz.Leaf", "v.hidden", "np.ValM()", "np.Add(1)", "d.PIn.Double()"}
-	c := ndChoice("case", len(bad)+2)
+	c := ndChoice("case", len(bad)+5)
 	d := &c06Outer{A: 1, SMap: map[string]int64{"k": 1}, IMap: map[int]int64{7: 1}, List: []int64{1}}
 	var np *c06Outer
 	vars := make(VarMap)
@@ -396,13 +429,20 @@ func H_C06_failures() {
 	vars.Set("np", np)
 	vars.Set("v", *d)
 	vars.Set("mm", map[string]map[string]string{"present": {"leaf": "x"}})
+	vars.Set("res", &c06Result{})
 	if c >= len(bad) {
-		srcs := []string{`[{{ d.SMap.absent }}]`, `[{{ d.IMap[8] }}]`}
-		set := hxSet(nil, "/m.jet", srcs[c-len(bad)])
+		// (a nil value of an interface-typed field exists and is nil: it renders the way a nil
+		// interface{} field does, tests false, equals nil, is not set)
+		srcs := []string{`[{{ d.SMap.absent }}]`, `[{{ d.IMap[8] }}]`, `{{ if true }}[{{ res.Err }}|{{ res.Label }}]{{ end }}`, `[{{ if res.Err }}T{{ end }}{{ res.Err == nil ? "" : "x" }}]`, `[{{ isset(res.Err) ? "x" : "" }}]`}
+		set := hxSet(nil, "/m.jet", srcs[c-len(bad)], "/ref.jet", `[{{ res.Extra }}|{{ res.Extra }}]`)
 		out, err := hxExec(set, "/m.jet", vars, nil)
 		vfReach("absent")
-		vfAssert(err == nil, "indexing a map with an absent key is not an error")
-		vfAssert(out == "[]", "an absent key yields nil")
+		vfAssert(err == nil, "an absent key / a nil interface-typed field is not an error")
+		want := "[]"
+		if c-len(bad) == 2 {
+			want, _ = hxExec(set, "/ref.jet", vars, nil)
+		}
+		vfAssert(out == want, "an absent key yields nil; a nil interface-typed field renders like any nil")
 		return
 	}
 	set := hxSet(nil, "/m.jet", `{{ `+bad[c]+` }}`)
